@@ -46,7 +46,9 @@ def make_jobs(rng: Rng, deep: bool) -> list[dict]:
                     jobs.append(j)
     # explicitly forced retries push the counter past N; the next ordinary failure must dead-letter
     fr = {"k": "eager", "pre": [], "api": ["forceRetry", None]}
-    for N, prefix in ((0, [fr]), (1, [{"k": "raise"}, fr]), (2, [{"k": "raise"}, {"k": "raise"}, fr, fr])):
+    er = {"k": "eager", "pre": [], "api": ["retry", None]}
+    for N, prefix in ((0, [fr]), (1, [{"k": "raise"}, fr]), (2, [{"k": "raise"}, {"k": "raise"}, fr, fr]), (2, [er, er]),
+                      (3, [er, {"k": "raise"}, er, fr])):
         for tail in ({"k": "raise"}, {"k": "timeout"}, {"k": "ret"}):
             n += 1
             jobs.append({"id": f"c{n}", "retries": N, "timeout": 1 * S, "plan": prefix + [tail, {"k": "ret"}], "mask": -1, "N": N,
@@ -62,11 +64,26 @@ def check_chains(run: WorkerRun, model: Model, res: Result, label: str) -> None:
     for d in ds:
         by_id.setdefault(d["id"], []).append(d)
     reqs, meta = [], []
+    freqs, fmeta = [], []
     places = run.msg_params()
     for j in sc["jobs"]:
         if j.get("forced"):
             res.dist["forced-retry-chain"] += 1
-            continue      # judged per delivery (counter above budget): see c02.check_run
+            # disposition judged per delivery (counter above budget): see c02.check_run.  The back-off clause holds for
+            # explicit retries too (`message.retry()` / `force_retry()` without a delay ask the actor's policy)
+            fchain = []
+            for d in by_id.get(j["id"], []):
+                start = d["start_t"] if d["start_t"] is not None else d["t"]
+                fin = d["call_t"] if d["call_t"] is not None else (d["end_t"] or start)
+                fchain.append([d["tried"], start, fin, True])
+                c = d["calls"][0] if len(d["calls"]) == 1 else None
+                if not (isinstance(c, list) and int(c[1][4]) == d["tried"] + 1):
+                    break
+            if len(fchain) >= 2:
+                fpol = [policy_us(spec, k) for k in range(1, j["N"] + 8)]
+                freqs.append(sx([A("c04.backoffOk"), fpol, fchain]))
+                fmeta.append((j, fchain))
+            continue
         chain = []
         final = "other"
         recurring = "defer_by" in j
@@ -112,8 +129,14 @@ def check_chains(run: WorkerRun, model: Model, res: Result, label: str) -> None:
         pol = [policy_us(spec, k) for k in range(1, j["N"] + 3)]
         reqs.append(sx([A("c04.chainOk"), j["N"], recurring, pol, chain, A(final)]))
         meta.append((j, chain, final))
+    for (j, fchain), ans in zip(fmeta, model.ask(freqs)):
+        res.note(("forced", j["N"], j["fail_kind"], repr(j["plan"]), spec["kind"], spec.get("us")))
+        if ans != "true":
+            res.bad("impl", "Pred.C04.backoffOk / countersOk on the observed chain of explicit retries: a retry was delivered earlier than "
+                            "the delay the policy returns for it, counted from the failure (or the counter did not grow by one)",
+                    case={"label": label, "job": j, "policy": spec, "chain[tried,start,fin,failed]": fchain}, observed=ans, expected="true")
     answers = model.ask(reqs)
-    res.extra["model_requests"] = res.extra.get("model_requests", 0) + len(answers)
+    res.extra["model_requests"] = res.extra.get("model_requests", 0) + len(answers) + len(freqs)
     for (j, chain, final), ans in zip(meta, answers):
         res.dist[f"N{j['N']}:{'allfail' if j['mask'] == 2 ** (j['N'] + 1) - 1 else ('nofail' if j['mask'] == 0 else 'mixed')}"] += 1
         res.note((j["N"], j["mask"], j["fail_kind"], "defer_by" in j, spec["kind"], spec.get("us")),
